@@ -103,7 +103,15 @@ func (p DictPattern) Bind(ctx context.Context, local Scope, value Value) (contex
 				key = lit.Literal()
 			}
 
-			dictExpr, found := m.Get(key.(Value))
+			keyValue, is := key.(Value)
+			if !is {
+				// a key that is not a literal, e.g. (k) or 1 + 1
+				var err error
+				if keyValue, err = key.Eval(ctx, local); err != nil {
+					return ctx, EmptyScope, err
+				}
+			}
+			dictExpr, found := m.Get(keyValue)
 			if !found {
 				if entry.pattern.fallback == nil {
 					return ctx, EmptyScope, fmt.Errorf("couldn't find %s in dict %s", key, m)
@@ -118,7 +126,7 @@ func (p DictPattern) Bind(ctx context.Context, local Scope, value Value) (contex
 				if dictValue, single = dictExpr.(Value); !single {
 					return ctx, EmptyScope, fmt.Errorf("key %s has several values in dict %s", key, dict)
 				}
-				m = m.Without(key.(Value))
+				m = m.Without(keyValue)
 			}
 		}
 
